@@ -182,7 +182,12 @@ def run(ctx):
         want = set(allowed.get(f.srcname, "PC"))
         got = total.get(f, set())
         extra = got - want
-        if extra:
+        if extra and got & want:
+            # the defining direction is read, and the other one as well (e.g. height = number of parent steps from the deepest
+            # descendant back to the node): both views agree (C01), so this is no contradiction of the definition - noted only
+            ctx.notes.append("N3: %s also reads the %s direction" % (f.qual, "/".join("parent" if x == "P" else "children" for x in sorted(extra))))
+            ctx.inst("N3", f, f.qual, "reads its defining direction (and %s)" % "".join(sorted(extra)))
+        elif extra:
             ctx.viol("N3", f, f.node, "%s reads the %s direction of the links (directly or through what it calls); by definition it depends only "
                      "on %s — its value is no longer the one the definition gives" % (
                          f.qual, "/".join("parent" if x == "P" else "children" for x in sorted(extra)),
